@@ -51,8 +51,8 @@ checks = [
 ]
 if os.path.exists("/verif/sim/src/c20/mod.rs"):
     checks.append(check("C20", "jiffsim", "DESIGN.md section 4",
-  "Seeded search over programs x schedules: bounded programs of new/clone/drop/move/eq/query/send/swap/crash over TimeZone, Zoned and AmbiguousZoned values of every kind run on 1-4 simulated threads; after every operation a counting global allocator is compared with a reference model (every heap-backed zone's allocations live while a handle exists, all freed exactly when the last handle goes, never freed twice, nothing leaked), every query is compared with answers precomputed from a reference zone, and equality laws are checked; every batch also sweeps all 187,199 fixed offsets. The thorough tier re-runs generated programs on real threads under Miri's seeded scheduler (use-after-free, double free, leaks, data races, invalid tagged pointers).",
-  "Trusted: Arc's atomics and the system allocator (native tier; Miri goes inside them), the counting allocator's bookkeeping, x86_64 only (A6). The native tier has scheduling points between operations only; which thread performs the last drop is what schedules vary.",
+  "Seeded search over programs x schedules: bounded programs (new/clone/drop/move/eq/query, 24 Zoned-producing and 9 in-place Zoned APIs, 16 two-value Zoned APIs, TimeZone->Zoned/AmbiguousZoned constructors, consuming AmbiguousZoned APIs, send/recv/swap between threads, thread crash) over TimeZone, Zoned and AmbiguousZoned values of every kind (UTC, unknown, fixed, POSIX incl. near-duplicate strings, TZif from bytes incl. same-name/different-data and static-twin zones, static) run on 1-4 simulated threads, each a real OS thread (own thread-locals) of which exactly one runs at a time; the hand-over at every operation boundary is decided by the run's PRNG and recorded. After every operation a counting global allocator is compared with a handle-count model (every allocation of a heap zone live while a handle exists, all freed exactly when the last handle goes, never twice, nothing leaked, constructors returning memory of a freed zone reported), every query is compared with a reference handle, with documented constants and with the recorded answers of the pinned tree, and equality laws (reflexive, symmetric, stable, expected value within a kind) are checked; every batch also sweeps all 187,199 fixed offsets and compares each static zone with the heap zone built from the same bytes. The thorough tier re-runs generated programs on free-running threads under Miri's seeded scheduler (use-after-free, double free, leaks, data races, invalid tagged pointers). Sampling, not proof.",
+  "Trusted: Arc's atomics and the system allocator (native tier; Miri goes inside them), the counting allocator's bookkeeping, x86_64 only (A6). The native tier has scheduling points between operations only; which thread performs which clone/drop and the last drop is what schedules vary. Panics of Zoned arithmetic APIs are not C20 violations (counted in the evidence); the recorded answer table cannot flag the tree it was recorded from.",
   "deterministic simulation (seeded scheduler over handle programs, crash faults, allocator-level memory oracle; Miri tier)"))
 else:
     NA["C20"] = "TEMPORARY: the C20 simulator (DESIGN.md section 4) is under construction in this commit; it is applicable and will be claimed"
